@@ -1103,6 +1103,45 @@ pub fn run_l2(scn: &C10Scenario, stats: &mut RunStats) -> Vec<Violation> {
                     }
                     _ => {}
                 }
+                // operations on a path that still has undelivered events are separated by
+                // a full debounce window: what the debouncer makes of several operations
+                // on one path in one window (create + remove = nothing, rename + remove =
+                // remove of the new name only) loses notifications, which is out of scope
+                let related: Vec<String> = match other {
+                    Op::Edit { path, .. }
+                    | Op::Add { path, .. }
+                    | Op::Touch { path }
+                    | Op::RemoveFile { path }
+                    | Op::RemoveDir { path } => vec![path.clone()],
+                    Op::Rename { from, to } => vec![from.clone(), to.clone()],
+                    _ => Vec::new(),
+                };
+                let interferes = related.iter().any(|p| {
+                    watches.event_paths(p).iter().any(|a| {
+                        debounce.has_queue_under(a) || {
+                            let mut anc = a.parent();
+                            let mut hit = false;
+                            while let Some(x) = anc {
+                                if debounce.has_exact_queue(x) {
+                                    hit = true;
+                                }
+                                anc = x.parent();
+                            }
+                            hit
+                        }
+                    }) || watches
+                        .event_paths(&format!("{}.tmp~", p))
+                        .iter()
+                        .any(|a| debounce.has_queue_under(a))
+                });
+                if interferes {
+                    let until = now + TIMEOUT_MS + 2 * TICK_MS;
+                    advance!(until, false);
+                    now = until;
+                    if !violations.is_empty() {
+                        break;
+                    }
+                }
                 let style = match other {
                     Op::Edit { path, body } => {
                         // files that are only covered by an inode watch are saved in place
@@ -1163,45 +1202,6 @@ pub fn run_l2(scn: &C10Scenario, stats: &mut RunStats) -> Vec<Violation> {
                     }
                     _ => SaveStyle::InPlace,
                 };
-                // operations on a path that still has undelivered events are separated by
-                // a full debounce window: what the debouncer makes of several operations
-                // on one path in one window (create + remove = nothing, rename + remove =
-                // remove of the new name only) loses notifications, which is out of scope
-                let related: Vec<String> = match other {
-                    Op::Edit { path, .. }
-                    | Op::Add { path, .. }
-                    | Op::Touch { path }
-                    | Op::RemoveFile { path }
-                    | Op::RemoveDir { path } => vec![path.clone()],
-                    Op::Rename { from, to } => vec![from.clone(), to.clone()],
-                    _ => Vec::new(),
-                };
-                let interferes = related.iter().any(|p| {
-                    watches.event_paths(p).iter().any(|a| {
-                        debounce.has_queue_under(a) || {
-                            let mut anc = a.parent();
-                            let mut hit = false;
-                            while let Some(x) = anc {
-                                if debounce.has_exact_queue(x) {
-                                    hit = true;
-                                }
-                                anc = x.parent();
-                            }
-                            hit
-                        }
-                    }) || watches
-                        .event_paths(&format!("{}.tmp~", p))
-                        .iter()
-                        .any(|a| debounce.has_queue_under(a))
-                });
-                if interferes {
-                    let until = now + TIMEOUT_MS + 2 * TICK_MS;
-                    advance!(until, false);
-                    now = until;
-                    if !violations.is_empty() {
-                        break;
-                    }
-                }
                 debounce.now = now;
                 let events = apply_op(&fs, &mut watches, other, style);
                 if std::env::var_os("VERIF_TRACE").is_some() {
